@@ -21,13 +21,13 @@ klass("Symbol", 1, "esp_kconfiglib.core", fields={
     "orig_type": field("int", "imm", inv="inv_orig_type"),
     "name": field("str", "imm"),
     "nodes": field("list[ref:MenuNode]", "imm"),
-    "defaults": field("list[tup(expr,expr)]", "mut"),
+    "defaults": field("list[tup(expr,expr)]", "mut", inv="inv_defaults"),
     "ranges": field("list[tup(ref:Symbol,ref:Symbol,expr)]", "imm"),
     "rev_dep": field("expr", "imm"),
     "weak_rev_dep": field("expr", "imm"),
     "direct_dep": field("expr", "imm"),
-    "rev_values": field("list[tup(ref:Symbol,expr,ref:Symbol)]", "imm"),
-    "weak_rev_values": field("list[tup(ref:Symbol,expr,ref:Symbol)]", "imm"),
+    "rev_values": field("list[tup(ref:Symbol,expr,ref:Symbol)]", "imm", inv="inv_rev_values"),
+    "weak_rev_values": field("list[tup(ref:Symbol,expr,ref:Symbol)]", "imm", inv="inv_weak_rev_values"),
     "choice": field("optref:Choice", "imm"),
     "kconfig": field("ref:Kconfig", "imm"),
     "env_var": field("optstr", "imm"),
@@ -53,7 +53,7 @@ klass("Choice", 2, "esp_kconfiglib.core", fields={
     "orig_type": field("int", "imm", inv="inv_orig_type"),
     "name": field("optstr", "imm"),
     "nodes": field("list[ref:MenuNode]", "imm"),
-    "defaults": field("list[tup(ref:Symbol,expr)]", "mut"),
+    "defaults": field("list[tup(ref:Symbol,expr)]", "mut", inv="inv_defaults"),
     "syms": field("list[ref:Symbol]", "imm"),
     "direct_dep": field("expr", "imm"),
     "kconfig": field("ref:Kconfig", "imm"),
